@@ -249,7 +249,7 @@ pub fn check_schema(report: &mut Report, m: &SchemaModel, rng: &mut Rng) {
 pub fn run(report: &mut Report, seed: u64, cases: u64) {
     let mut rng = Rng::new(seed);
     for k in 0..cases {
-        let m = if k == 0 && seed % 4 == 1 { vs_schema() } else { random_schema(&mut rng, &SchemaGenCfg::default()) };
+        let m = if k == 0 && seed % 4 == 1 { vs_schema() } else { random_schema(&mut rng, &SchemaGenCfg { propertyless_pct: 25, ..Default::default() }) };
         check_schema(report, &m, &mut rng);
         if report.samples.len() < 2 {
             let s = sites(&m);
